@@ -37,28 +37,116 @@ STRUCTS = {
 }
 
 
+# nested shapes (names in NESTED): a member type may also be the name of another shape (a member of struct/union type) or
+# ('arr', element type, length) (a member of array type, the element being a scalar, a shape or again an array). The class of an
+# aggregate is decided by its scalar leaves (psABI 3.2.3 (4): "each field of an array, structure or union is classified recursively"),
+# so each nested shape has the class of the flat shape with the same leaves
+STRUCTS.update({
+    # ---- the long double is reached through a struct member / an array / an array of structs / a 2-dimensional array
+    's_sL':    (16, 16, [('s_L', 0)]),                                    # struct { struct { long double v; } s; }
+    's_La1':   (16, 16, [(('arr', 'ldouble', 1), 0)]),                    # struct { long double a[1]; }
+    's_aL':    (16, 16, [(('arr', 's_L', 1), 0)]),                        # struct { struct { long double v; } a[1]; }
+    's_L11':   (16, 16, [(('arr', ('arr', 'ldouble', 1), 1), 0)]),        # struct { long double m[1][1]; }
+    'u_aL':    (16, 16, [(('arr', 's_L', 1), 0)]),                        # union { struct { long double v; } a[1]; }
+    # ---- INTEGER / SSE leaves behind structs and arrays, at offsets that only the recursion with the right stride finds
+    's_sd_l':  (16, 8, [('s_d', 0), ('long', 8)]),                        # struct { struct { double d; } s; long l; }: SSE, INTEGER
+    's_asl_d': (16, 8, [(('arr', 's_l', 1), 0), ('double', 8)]),          # struct { struct { long l; } a[1]; double d; }: INTEGER, SSE
+    's_l_asff': (16, 8, [('long', 0), (('arr', 's_ff', 1), 8)]),          # struct { long l; struct { float f[2]... } a[1]; }: INTEGER, SSE
+    's_f3i':   (16, 4, [(('arr', 'float', 3), 0), ('int', 12)]),          # struct { float f[3]; int i; }: SSE, INTEGER
+    's_if3':   (16, 4, [('int', 0), (('arr', 'float', 3), 4)]),           # struct { int i; float f[3]; }: INTEGER, SSE
+    's_f22':   (16, 4, [(('arr', ('arr', 'float', 2), 2), 0)]),           # struct { float m[2][2]; }: SSE, SSE
+    's_d11_l': (16, 8, [(('arr', ('arr', 'double', 1), 1), 0), ('long', 8)]),   # struct { double m[1][1]; long l; }: SSE, INTEGER
+    's_asfi_d': (16, 8, [(('arr', 's_fi', 1), 0), ('double', 8)]),        # struct { struct { float f; int i; } a[1]; double d; }: INTEGER, SSE
+    's_i2f2':  (16, 4, [(('arr', 'int', 2), 0), (('arr', 'float', 2), 8)]),   # struct { int i[2]; float f[2]; }: INTEGER, SSE (every element at its own offset)
+    's_f2i2':  (16, 4, [(('arr', 'float', 2), 0), (('arr', 'int', 2), 8)]),   # struct { float f[2]; int i[2]; }: SSE, INTEGER
+    's_c16':   (16, 1, [(('arr', 'char', 16), 0)]),                       # struct { char c[16]; }: INTEGER, INTEGER
+    'u_l2_d':  (16, 8, [(('arr', 'long', 2), 0), ('double', 0)]),         # union { long l[2]; double d; }: INTEGER, INTEGER
+    'u_f4':    (16, 4, [(('arr', 'float', 4), 0), ('s_dd', 0)]),          # union { float f[4]; struct { double a, b; } s; }: SSE, SSE
+    's_a3l':   (24, 8, [(('arr', 's_l', 3), 0)]),                         # struct { struct { long l; } a[3]; }: larger than 16 bytes, MEMORY
+})
+NESTED = {n for n, (sz, al, ms) in STRUCTS.items() if any(not isinstance(mt, str) or mt in STRUCTS for mt, off in ms)}
+# ---- shapes whose class is decided by a rule other than "one class per member": an eightbyte in which no member lies (NO_CLASS: no
+# register), a member that is not naturally aligned (MEMORY), X87UP that does not follow X87 after the merge of a union (MEMORY)
+STRUCTS.update({
+    's_l_pad': (16, 16, [('long', 0)]),                                   # struct { _Alignas(16) long x; }: INTEGER + a padding eightbyte
+    's_d_pad': (16, 16, [('double', 0)]),                                 # struct { _Alignas(16) double x; }: SSE + a padding eightbyte
+    's_pk_cl': (9, 1, [('char', 0), ('long', 1)]),                        # struct __attribute__((packed)) { char c; long l; }: unaligned member, MEMORY
+    'u_Ll1':   (16, 16, [('ldouble', 0), ('long', 0)]),                   # union { long double f; long l; }: INTEGER, X87UP -> MEMORY (post-merger)
+})
+CLASS_ONLY = NESTED | {'s_l_pad', 's_d_pad', 's_pk_cl', 'u_Ll1'}          # shapes that decide a classification clause; register exhaustion is covered by the flat shapes
+
+
+def _member_size(mt):
+    if isinstance(mt, tuple):
+        return mt[2] * _member_size(mt[1])
+    if mt == 'empty':
+        return 0
+    return SCALARS[mt] if mt in SCALARS else STRUCTS[mt][0]
+
+
+def _member_align(mt):
+    if isinstance(mt, tuple):
+        return _member_align(mt[1])
+    if mt == 'empty':
+        return 1
+    if mt == 'ldouble':
+        return 16
+    return max(1, SCALARS[mt]) if mt in SCALARS else STRUCTS[mt][1]
+
+
+def flat_members(t, base=0):
+    """scalar leaves [(scalar type | 'empty', offset)] of a shape, through member structs/unions and arrays"""
+    out = []
+
+    def walk(mt, off):
+        if isinstance(mt, tuple):
+            es = _member_size(mt[1])
+            for i in range(mt[2]):
+                walk(mt[1], off + es * i)
+        elif mt in STRUCTS:
+            for m2, o2 in STRUCTS[mt][2]:
+                walk(m2, off + o2)
+        else:
+            out.append((mt, off))
+    for mt, off in STRUCTS[t][2]:
+        walk(mt, base + off)
+    return out
+
+
+def describe(t):
+    """C-like rendering of a vocabulary type (for messages)"""
+    def r(mt):
+        if isinstance(mt, tuple):
+            return '%s[%d]' % (r(mt[1]), mt[2])
+        if mt in STRUCTS:
+            return describe(mt)
+        return mt
+    if t not in STRUCTS:
+        return t
+    return '%s{%s}' % ('union' if t.startswith('u_') else 'struct', ','.join(r(mt) for mt, off in STRUCTS[t][2]))
+
+
 def size_of(t):
     return SCALARS[t] if t in SCALARS else STRUCTS[t][0]
 
 
-def classify(t):
-    """psABI 3.2.3 classification: list of eightbyte classes ('INTEGER'|'SSE') or ['MEMORY'] / ['X87']"""
-    if t in SCALARS:
-        if t in ('float', 'double'):
-            return ['SSE']
-        if t == 'ldouble':
-            return ['X87']
-        return ['INTEGER']
-    size, align, members = STRUCTS[t]
-    members = [(mt, off) for mt, off in members if mt != 'empty']
+def eightbyte_classes(t):
+    """psABI 3.2.3 classification of an aggregate after the merge and the post-merger cleanup: one of 'INTEGER' | 'SSE' | 'X87' | 'X87UP' |
+    'NO_CLASS' per eightbyte, or ['MEMORY']"""
+    size, align, _ = STRUCTS[t]
+    members = [(mt, off) for mt, off in flat_members(t) if mt != 'empty']
     if size > 16:
         return ['MEMORY']
+    if any(off % (16 if mt == 'ldouble' else max(1, SCALARS[mt])) for mt, off in members):
+        return ['MEMORY']                                     # (1) "... or it contains unaligned fields, it has class MEMORY"
     n = (size + 7) // 8
     cls = [None] * n
 
     def merge(a, b):
         if a is None or a == b:
             return b
+        if 'MEMORY' in (a, b):
+            return 'MEMORY'
         if 'INTEGER' in (a, b):
             return 'INTEGER'                                  # (4d) INTEGER wins a merge
         if a in ('X87', 'X87UP') or b in ('X87', 'X87UP'):
@@ -72,9 +160,25 @@ def classify(t):
         c = 'SSE' if mt in ('float', 'double') else 'INTEGER'
         k = off // 8
         cls[k] = merge(cls[k], c)
+    if 'MEMORY' in cls:
+        return ['MEMORY']                                     # (5a)
+    if any(c == 'X87UP' and (k == 0 or cls[k - 1] != 'X87') for k, c in enumerate(cls)):
+        return ['MEMORY']                                     # (5b) X87UP not preceded by X87
+    return [c or 'NO_CLASS' for c in cls]                     # an eightbyte that holds only padding keeps NO_CLASS: it takes no register
+
+
+def classify(t):
+    """psABI 3.2.3 classification of an ARGUMENT: list of eightbyte classes ('INTEGER'|'SSE'|'NO_CLASS') or ['MEMORY'] / ['X87']"""
+    if t in SCALARS:
+        if t in ('float', 'double'):
+            return ['SSE']
+        if t == 'ldouble':
+            return ['X87']
+        return ['INTEGER']
+    cls = eightbyte_classes(t)
     if any(c in ('MEMORY', 'X87', 'X87UP') for c in cls):
         return ['MEMORY']      # psABI 3.2.3 (5): X87/X87UP eightbytes of an argument go to memory (a return value of class X87,X87UP: see ret_locs)
-    return [c or 'SSE' for c in cls]
+    return cls
 
 
 def assign_args(types, hidden_ret=False, ld_align=16):
@@ -94,7 +198,7 @@ def assign_args(types, hidden_ret=False, ld_align=16):
             for x in c:
                 if x == 'INTEGER':
                     r.append(('gp', gp)); gp += 1
-                else:
+                elif x == 'SSE':
                     r.append(('sse', sse)); sse += 1
             locs.append(('regs', r))
         else:
@@ -118,25 +222,28 @@ class Builder:
         self.E = self.cu.enums
 
     def ty(self, it, name):
+        if isinstance(name, tuple):                         # ('arr', element, length)
+            base = self.ty(it, name[1])
+            t = Obj('Type', lazy=False, label='T:arr')
+            t.fields.update({'kind': self.E['TY_ARRAY'], 'size': _member_size(name), 'align': _member_align(name), 'base': base,
+                             'array_len': name[2], 'members': 0, 'is_unsigned': 0})
+            return t
+        if name == 'empty':
+            ety = Obj('Type', lazy=False, label='T:empty')
+            ety.fields.update({'kind': self.E['TY_STRUCT'], 'size': 0, 'align': 1, 'members': 0, 'base': 0, 'is_unsigned': 0})
+            return ety
         if name in SCALARS:
             return self.T.make(it, name)
         size, align, members = STRUCTS[name]
         t = Obj('Type', lazy=False, label='T:' + name)
-        t.fields.update({'kind': self.E['TY_UNION' if name.startswith('u_') else 'TY_STRUCT'], 'size': size, 'align': align})
+        t.fields.update({'kind': self.E['TY_UNION' if name.startswith('u_') else 'TY_STRUCT'], 'size': size, 'align': align, 'members': 0, 'base': 0})
         prev = None
         for i, (mt, off) in enumerate(members):
             m = Obj('Member', lazy=False, label='%s.m%d' % (name, i))
             if mt == 'empty':
-                ety = Obj('Type', lazy=False, label='T:empty')
-                ety.fields.update({'kind': self.E['TY_STRUCT'], 'size': 0, 'align': 1, 'members': 0, 'base': 0, 'is_unsigned': 0})
-                m.fields.update({'ty': ety, 'offset': off, 'idx': i, 'align': 1, 'next': 0, 'is_bitfield': 0, 'name': 0})
-                if prev is None:
-                    t.fields['members'] = m
-                else:
-                    prev.fields['next'] = m
-                prev = m
-                continue
-            m.fields.update({'ty': self.T.make(it, mt), 'offset': off, 'idx': i, 'align': SCALARS[mt] if mt != 'ldouble' else 16})
+                m.fields.update({'ty': self.ty(it, mt), 'offset': off, 'idx': i, 'align': 1, 'next': 0, 'is_bitfield': 0, 'name': 0})
+            else:
+                m.fields.update({'ty': self.ty(it, mt), 'offset': off, 'idx': i, 'align': _member_align(mt), 'next': 0, 'is_bitfield': 0})
             if prev is None:
                 t.fields['members'] = m
             else:
